@@ -728,6 +728,8 @@ class Interp:
             # cannot be summarised, the exit it contains would be dropped and the function would be summarised by its main path alone
             if contains_value_exit(s):
                 raise ControlUndecided("an undecided statement contains a value-returning exit (%s)" % u.what, u.span)
+            if (self.loops or self.in_transfer) and contains_escaping_jump(s):
+                raise ControlUndecided("an undecided statement contains a break / continue of the enclosing loop (%s)" % u.what, u.span)
             self.note_undecided(u)
             # opaque fallback: every local this statement may define or modify becomes a named unknown
             for (vid, name, ty) in mutated_locals(s):
@@ -1915,6 +1917,24 @@ def contains_value_exit(node):
         for x in node:
             if contains_value_exit(x):
                 return True
+    return False
+
+
+def contains_escaping_jump(node, scopes=frozenset()):
+    """True iff the fragment contains a `break` / `continue` that targets a loop OUTSIDE the fragment."""
+    if isinstance(node, dict):
+        k = node.get("k")
+        if k in ("break", "continue"):
+            lab = node.get("label")
+            if lab is None:
+                return not scopes
+            return lab not in scopes
+        if k == "loop":
+            inner = scopes | {node.get("scope", "?loop%d" % len(scopes))}
+            return any(contains_escaping_jump(x, inner) for x in node.values())
+        return any(contains_escaping_jump(x, scopes) for x in node.values())
+    if isinstance(node, list):
+        return any(contains_escaping_jump(x, scopes) for x in node)
     return False
 
 
